@@ -50,7 +50,10 @@ IDX = "cr"
 
 
 def ev(i):
-    return {"id": i, "x": "v%d" % i, "n": i * 10, "w": "w%d" % (i % 2), "timestamp": 1700000000000 + i * 1000}
+    e = {"id": i, "x": "v%d" % i, "n": i * 10, "w": "w%d" % (i % 2), "timestamp": 1700000000000 + i * 1000}
+    if 50 <= i < 1000:
+        e["late"] = "L%d" % i          # a column that first appears in a later block of the segment
+    return e
 
 
 def bulk_cmd(ids, index=IDX):
@@ -63,6 +66,8 @@ def history(name):
         "f3r": [("bulk", [1, 2]), ("flush",), ("bulk", [3]), ("flush",), ("bulk", [4, 5]), ("flush",), ("rotate",)],
         "rotwip": [("bulk", [1, 2]), ("flush",), ("bulk", [3]), ("rotate",), ("bulk", [4]), ("flush",)],
         "f1": [("bulk", [1]), ("flush",)],
+        # the second and third block introduce a column the first block (and the running .sfm) does not know
+        "newcol": [("bulk", [1, 2]), ("flush",), ("bulk", [51, 52]), ("flush",), ("bulk", [3, 53]), ("flush",), ("rotate",)],
         "r2": [("bulk", [1, 2]), ("flush",), ("rotate",), ("bulk", [3, 4]), ("flush",), ("rotate",), ("bulk", [5]), ("flush",)],
         "wide": [("bulk", list(range(1, 9))), ("flush",), ("bulk", list(range(9, 12))), ("flush",), ("rotate",)],
         # persistent-query machinery on and primed with group-by queries: the second segment carries an agile tree
@@ -109,6 +114,7 @@ def recover_and_check(binary, state_dir, completed, inprog, i_label):
     bad = []
     dr = None
     allowed = set(completed) | set(inprog)
+    unfinished = set(inprog) - set(completed)      # events of the flush that was in progress at the crash
     try:
         dr = vlib.Driver(binary, cwd=state_dir)
         try:
@@ -142,7 +148,10 @@ def recover_and_check(binary, state_dir, completed, inprog, i_label):
                     w = ev(i)
                     for k, v in w.items():
                         if h.get(k) != v:
-                            bad.append(("C07:content", "%s: event %d field %s = %r, ingested %r" % (stage, i, k, h.get(k), v)))
+                            key = "C07:content"
+                            if h.get(k) is None and i in unfinished:
+                                key = "C07:content:new-column-missing-in-unfinished-flush"
+                            bad.append((key, "%s: event %d field %s = %r, ingested %r" % (stage, i, k, h.get(k), v)))
                             break
             got_inprog = set(ids) & set(may) - set(must)
             if may and got_inprog and got_inprog != set(may) - set(must):
@@ -202,10 +211,26 @@ def recover_and_check(binary, state_dir, completed, inprog, i_label):
         r = dr.ok("bulk", body=bulk_cmd(new)["body"])
         dr.ok("flush")
         got2 = search("after further ingest", list(got) + new, [], sure=completed)
+        # a NEW index after the restart (the list of index names is appended to by the recovered process)
+        r = dr.ok("bulk", body=bulk_cmd([2001, 2002], index=IDX + "2")["body"])
+        dr.ok("flush")
+        r5 = dr.cmd("query", text="*", index=IDX + "2", start=1, end=1900000000000, size=100, timeout=60)
+        ids5 = sorted(h.get("id") for h in ((r5.get("res") or {}).get("hits", {}).get("records") or []) if h.get("id") is not None)
+        if ids5 != [2001, 2002]:
+            bad.append(("C07:new-index-after-restart", "events ingested into a new index after the restart are not searchable there: %s" % ids5))
         dr.quit()
         dr = vlib.Driver(binary, cwd=state_dir)
         dr.ok("init", dir="data", wait_ms=500)
         search("after second restart", list(got) + new, [], sure=completed)
+        r6 = dr.cmd("query", text="*", index=IDX + "2", start=1, end=1900000000000, size=100, timeout=60)
+        ids6 = sorted(h.get("id") for h in ((r6.get("res") or {}).get("hits", {}).get("records") or []) if h.get("id") is not None)
+        if ids6 != [2001, 2002]:
+            bad.append(("C07:new-index-after-restart", "after the second restart the index created after the first restart returns %s (ingested 2001, 2002)" % ids6))
+        r7 = dr.cmd("query", text="*", index="*", start=1, end=1900000000000, size=1000, timeout=60)
+        ids7 = set(h.get("id") for h in ((r7.get("res") or {}).get("hits", {}).get("records") or []))
+        if not set(got) <= ids7 or not {2001, 2002} <= ids7:
+            bad.append(("C07:index-list", "a search over all indexes after the second restart misses events: recovered %s new-index %s" % (
+                sorted(set(got) - ids7, key=str)[:6], sorted({2001, 2002} - ids7))))
     except vlib.DriverDead as e:
         if e.kind == "hang":
             raise vlib.Infra("engine did not answer on crash state %s: %s" % (i_label, e))
@@ -283,6 +308,10 @@ def spec_events(ops, data, seg_index):
         seen_cls = set()
         if kind == "rot" and any(crashfs.file_class(ops[i2].get("dst") or ops[i2].get("path")) == "csg" for i2 in opidx):
             return None          # the rotation flushed a block itself: not the shape of the spec's history
+        if kind == "flush":
+            here = set(os.path.basename(p2) for p2 in first if crashfs.file_class(p2) == "csg")
+            if cols and here != set(cols):
+                return None      # a column that is absent from some block (late-appearing column): the spec writes every column in every flush
         for it in body:
             if it[0] == "segmeta":
                 evs.append({"ev": "SegmetaAppend"})
@@ -532,7 +561,7 @@ def run(chk):
                                    "CountAgrees": "violated" if "CountAgrees" in rc.violated else "holds"}
     binary = vlib.build_driver()
     rnd = random.Random(chk.seed)
-    names = ["f3r", "rotwip", "tree"] if quick else ["f3r", "rotwip", "tree", "f1", "r2", "wide"]
+    names = ["f3r", "rotwip", "tree", "newcol"] if quick else ["f3r", "rotwip", "tree", "newcol", "f1", "r2", "wide"]
     for nm in names:
         run_history(chk, binary, nm, quick, rnd)
     chk.assumptions += [
